@@ -83,7 +83,7 @@ func init() {
 		ID:    "C09",
 		Level: "exploration",
 		Rule: "phase 0 (exhaustive): every sequence of up to L building operations (L=3 quick, L=5 thorough) over the 13-operation alphabet {AddHeaders(0|1|2 items), AddRowItems(0|1|3), AddSeparator, AppendNewRow, Add on the last row handle, AddRow(prebuilt 0|2 cells), Add on AllRows()[last] (possibly a separator), AddRow(NewRowSizedFor+1)} crossed with 6 item flavours (plain, multi-line, declared size below/above actual, unicode/invalid, empty/nil/rune), each table then put under one of five legal configurations (none; default right; default centre; two columns right/centre; left + centre + skipable default + last column right); " +
-			"phase 1 (exhaustive): all sequences of length L+1 for the flavour whose items declare less than they have (and, in quick, the plain flavour); phase 3: tables of 150-2100 rows (separators, empty and ragged rows, one of the six item flavours) rendered through all routes while runtime.GOMAXPROCS is 1, 2, 3 or the number of CPUs; phase 2: random sequences of up to 40 operations with items from the whole item zoo, one item in 15 being an item that holds a table of its own and renders it (as text from String, as JSON from MarshalJSON) when the outer table is rendered. Every resulting table is rendered through csv/html/json/markdown wrappers, a text wrapper under every registered decoration (the six built-ins plus one complete and seven partially filled, never Populate()d decorations registered by the check), and (for every 8th sequence of the exhaustive phases and all random ones) auto.Render for every listed style, under a panic guard; all routes render the same table object one after the other in an order that varies from case to case. " +
+			"phase 1 (exhaustive): all sequences of length L+1 for the flavour whose items declare less than they have (and, in quick, the plain flavour); phase 3: tables of 150-2100 rows (separators, empty and ragged rows, one of the six item flavours) rendered through all routes while runtime.GOMAXPROCS is 1, 2, 3 or the number of CPUs; phase 2: random sequences of up to 40 operations with items from the whole item zoo, one item in 15 being an item that holds a table of its own and renders it (as text from String, as JSON from MarshalJSON) when the outer table is rendered. phase 4: random sequences of up to 30 operations on a table that carries a table-level add-time row callback (an auditor printing the table as it grows) which renders the table, as it is at that moment inside AddRow, through every direct route, and again through all routes once built. Every resulting table is rendered through csv/html/json/markdown wrappers, a text wrapper under every registered decoration (the six built-ins plus one complete and seven partially filled, never Populate()d decorations registered by the check), and (for every 8th sequence of the exhaustive phases and all random ones) auto.Render for every listed style, under a panic guard; all routes render the same table object one after the other in an order that varies from case to case. " +
 			"Distinct = distinct (sequence, flavour) pairs; non-trivial = the table has at least one row or header.",
 		Assumptions: []string{
 			"tables are built through the public building API only (custom Table implementations that misreport NColumns are outside the statement)",
@@ -113,6 +113,7 @@ func init() {
 				}},
 			{Name: "random sequences up to 40 operations, whole item zoo", N: Fixed(3000, 300000), Run: c09Random},
 			{Name: "long tables (150-2100 rows) while the program runs with GOMAXPROCS set to 1, 2, 3 and the number of CPUs", N: Fixed(48, 480), Run: c09Long},
+			{Name: "random sequences up to 30 operations on a table whose add-time row callback renders it through every direct route each time a row arrives", N: Fixed(400, 20000), Run: c09Auditor},
 		},
 	})
 }
@@ -361,12 +362,21 @@ func c09RenderAll(c *Ctx, t tabular.Table, desc map[string]interface{}, withAuto
 		names[k] = routes[k].Name
 	}
 	desc["render_order"] = names
+	c09RenderRoutes(c, t, desc, routes, "")
+}
+
+// c09RenderRoutes renders t through every given route under a panic guard and applies the C09 oracle to each;
+// when names what the table was in the middle of (empty: nothing, the table is at rest).
+func c09RenderRoutes(c *Ctx, t tabular.Table, desc map[string]interface{}, routes []Route, when string) {
 	for _, rt := range routes {
 		var s string
 		var err error
 		c.Rec.Count("renders", 1)
 		panicked, val, stack := Guard(func() { s, err = rt.Render(t) })
 		d := map[string]interface{}{"route": rt.Name, "table": desc}
+		if when != "" {
+			d["rendered_while"] = when
+		}
 		if panicked {
 			site := PanicSite(stack)
 			c.Rec.Count("panics", 1)
@@ -385,4 +395,55 @@ func c09RenderAll(c *Ctx, t tabular.Table, desc map[string]interface{}, withAuto
 			}
 		}
 	}
+}
+
+// c09Auditor: a table whose owner registered a table-level add-time row callback that prints the table each time a
+// row arrives (a progress display, an auditor).  The table the callback sees is one "built through the public API":
+// AddRow has attached the row and is running the callbacks the API documents.  Every direct route must return text or
+// an error on it, as on any other table; arriving rows are often wider than the table so far.
+func c09Auditor(c *Ctx, i int, r *gen.R) {
+	n := r.Range(1, 30)
+	if r.Chance(1, 2) {
+		n = r.Range(1, 8)
+	}
+	fam := gen.FAscii | gen.FNewline | gen.FWide | gen.FCombining | gen.FZero | gen.FEmoji | gen.FInvalid | gen.FCSV | gen.FHTML | gen.FMD | gen.FEdge
+	var specs []gen.ItemSpec
+	desc := map[string]interface{}{}
+	c.Case = desc
+	t := tabular.New()
+	b := &c09Builder{t: t}
+	b.nextIt = func() interface{} {
+		s := r.AnyItem(fam, 5, 2)
+		specs = append(specs, s)
+		return s.Make().Item
+	}
+	c09RegisterDecorations()
+	routes := DirectRoutes()
+	arrivals := 0
+	busy := false
+	t.RegisterPropertyCallback(t, tabular.CB_AT_ADD, tabular.CB_ON_ROW, cbFunc(func(o tabular.PropertyOwner) error {
+		if busy {
+			return nil
+		}
+		busy = true
+		defer func() { busy = false }()
+		arrivals++
+		c.Rec.Count("detail:renders_started_from_inside_an_add_time_row_callback", int64(len(routes)))
+		c09RenderRoutes(c, t, desc, routes, fmt.Sprintf("AddRow is running the table's add-time row callbacks for arriving row %d", arrivals))
+		return nil
+	}))
+	names := make([]string, n)
+	seq := make([]int, n)
+	for k := 0; k < n; k++ {
+		seq[k] = r.Intn(c09NOps)
+		names[k] = c09OpNames[seq[k]]
+		desc["ops"] = names[:k+1]
+		desc["items"] = specs
+		b.apply(seq[k])
+	}
+	desc["items"] = specs
+	desc["configuration"] = c09Configure(t, r.Intn(len(c09ConfigNames)))
+	c.Rec.Eval(gen.Hash64("auditor", fmt.Sprint(seq), fmt.Sprint(len(specs))), arrivals > 0)
+	c.Rec.Max("max:row_arrivals_audited_in_one_table", int64(arrivals))
+	c09RenderAll(c, t, desc, i%8 == 0, r.Uint64())
 }
